@@ -1,3 +1,4 @@
+import threading
 from contextlib import suppress
 from enum import Enum
 from typing import (
@@ -124,6 +125,14 @@ def recursion_cache(checker_cls: Type[RecursiveChecker]) -> Dict[RecursionKey, b
     return {}
 
 
+# The checkers of one direction share the dictionary above and write to it while they
+# run: two analyses running at the same time (first use of a recursive type by two
+# threads) can overwrite "recursive" with "not recursive". Only one analysis at a time;
+# reentrant because conversions/lazy conversions resolved during the analysis can
+# themselves use apischema.
+_analysis_lock = threading.RLock()
+
+
 @cache
 def is_recursive(
     tp: AnyType,
@@ -133,7 +142,9 @@ def is_recursive(
 ) -> bool:
     cache, rec_key = recursion_cache(checker_cls), (tp, conversion)
     if rec_key not in cache:
-        checker_cls(default_conversion).visit_with_conv(tp, conversion)
+        with _analysis_lock:
+            if rec_key not in cache:  # may have been filled while waiting
+                checker_cls(default_conversion).visit_with_conv(tp, conversion)
     return cache[rec_key]
 
 
